@@ -289,7 +289,12 @@ class World20:
             opts['camera'] = self.mvs[opts['camera']]
         self.catcher = LogCatcher()
         logging.getLogger('traitlets').addHandler(self.catcher)
-        if self.cfg.get('single_callable'):
+        if self.cfg.get('single_callable') == 'eager':
+            # def graph_func(): return [x, y, x & y]   -- dependents computed in the body, on every call
+            def fn():
+                return [self.build_node(n, eager=True) for n in self.cfg['scene']]
+            self.widget = self.alg.graph(fn, **opts)
+        elif self.cfg.get('single_callable'):
             fn = (lambda subs: (lambda: subs))(subjects)
             self.widget = self.alg.graph(fn, **opts)
         else:
@@ -302,21 +307,23 @@ class World20:
         for c, msg_type, data, buffers in early:
             self.on_kernel_publish(c, msg_type, data, buffers)
 
-    def build_node(self, n):
+    def build_node(self, n, eager=False):
         t = n['t']
         if t in ('int', 'str'):
             return n['v']
         if t == 'mv':
             return self.mvs[n['id']]
         if t == 'list':
-            return [self.build_node(x) for x in n['of']]
+            return [self.build_node(x, eager) for x in n['of']]
         if t == 'tuple':
-            return tuple(self.build_node(x) for x in n['of'])
+            return tuple(self.build_node(x, eager) for x in n['of'])
         if t == 'call':
             inner = n['of']
-            return lambda: self.build_node(inner)
+            return lambda: self.build_node(inner, eager)
         if t == 'dep':
             a, b, op = self.mvs[n['a']], self.mvs[n['b']], n['op']
+            if eager:
+                return getattr(a, op)(b)
             return lambda: getattr(a, op)(b)
         raise ValueError(t)
 
